@@ -41,6 +41,9 @@ func runC14(c *Ctx) {
 	c14Purity(c, a, pr)
 	c14Copies(c, a)
 	c14ChangeMapping(c, a)
+	// being the argument of a merge: not written, and no reference into it is kept by the receiver (a kept
+	// reference lets later operations on the receiver alter the argument's answers)
+	c02ArgUntouched(c, a, "C14-D4")
 }
 
 // checkNoObservableWrite: the observable write set of f rooted at parameter idx is empty.
@@ -132,9 +135,13 @@ func c14Purity(c *Ctx, a *sketchAnchors, pr *paginatedRoles) {
 	c.R.floor(rule, "read-only (operation × implementation) instances", n, 120)
 
 	// the factored-out routines write only what they are allowed to
-	sortMods := c.Mod.ModsRooted(pr.sort, 0)
-	okSort := len(sortMods) == 1 && sortMods[0] == "."+pr.bufFld+"[*]" && len(c.Mod.Mods[pr.sort]) == 1
-	c.R.check(okSort, rule, "paginated/sort-routine-writes", shortFn(pr.sort), c.fpos(pr.sort), "the sort routine only permutes the elements of the buffer", strings.Join(c.Mod.Mods[pr.sort].sorted(), " "))
+	if pr.sort != nil {
+		sortMods := c.Mod.ModsRooted(pr.sort, 0)
+		okSort := len(sortMods) == 1 && sortMods[0] == "."+pr.bufFld+"[*]" && len(c.Mod.Mods[pr.sort]) == 1
+		c.R.check(okSort, rule, "paginated/sort-routine-writes", shortFn(pr.sort), c.fpos(pr.sort), "the sort routine only permutes the elements of the buffer", strings.Join(c.Mod.Mods[pr.sort].sorted(), " "))
+	} else {
+		c.R.trivial(rule, "paginated/sort-routine-writes", "", "", "the buffer is sorted with sort.Ints written out at each use (library summary: permutes its argument)", "no separate sort routine")
+	}
 	okC := true
 	var cm []string
 	flds := map[string]bool{}
